@@ -153,10 +153,14 @@ func evalRsim(c *core.Ctx, f []string) *core.Case {
 				return false
 			}
 		} else {
+			plantStaleTmp(file) // a crash between the temp-file write and the rename left "<file>.tmp" behind
 			r := construct(cfgIdx, mode, file, nil, false)
 			if r.world == nil {
 				fail("constructing the handler from the lease file ended in %s", r.impl)
 				return false
+			}
+			if bad := leaseFileIntact(file); bad != "" {
+				fail("%s", bad)
 			}
 			w = r.world
 			led.Observe(&c11.Step{Op: &c11.Op{Kind: "restart", Cfg: cfgIdx}, Skipped: true})
